@@ -1,4 +1,9 @@
+#[cfg(not(multiqueue2_verif))]
 use std::sync::atomic::{AtomicUsize, Ordering};
+#[cfg(multiqueue2_verif)]
+use std::sync::atomic::Ordering;
+#[cfg(multiqueue2_verif)]
+use crate::verif_hooks::AtomicUsize;
 
 #[cfg(target_pointer_width = "32")]
 mod index_data {
@@ -276,5 +281,47 @@ mod tests {
         let trans2 = mycounted.load_transaction(Relaxed);
         trans2.commit_direct(1, Relaxed);
         trans.commit(1, Relaxed).unwrap();
+    }
+}
+
+/// Pure entry points to the index arithmetic, for the verification harness.
+#[cfg(multiqueue2_verif)]
+pub mod verif_api {
+    use super::*;
+
+    pub fn tx_get(loaded: usize, wrap: Index) -> (isize, usize) {
+        CountedIndex::from_usize(loaded, wrap)
+            .load_transaction(Ordering::Relaxed)
+            .get()
+    }
+
+    pub fn tx_matches_previous(loaded: usize, wrap: Index, val: usize) -> bool {
+        CountedIndex::from_usize(loaded, wrap)
+            .load_transaction(Ordering::Relaxed)
+            .matches_previous(val)
+    }
+
+    pub fn tx_commit_direct(loaded: usize, wrap: Index, by: Index) -> usize {
+        let ci = CountedIndex::from_usize(loaded, wrap);
+        ci.load_transaction(Ordering::Relaxed)
+            .commit_direct(by, Ordering::Relaxed);
+        ci.load_raw(Ordering::Relaxed)
+    }
+
+    /// CAS-commit against a word that currently holds `actual`.
+    pub fn tx_commit(loaded: usize, actual: usize, wrap: Index, by: Index) -> (bool, usize) {
+        let ci = CountedIndex::from_usize(loaded, wrap);
+        let tx = ci.load_transaction(Ordering::Relaxed);
+        ci.val.store(actual, Ordering::Relaxed);
+        let ok = tx.commit(by, Ordering::Relaxed).is_none();
+        (ok, ci.load_raw(Ordering::Relaxed))
+    }
+
+    pub fn get_previous(start: usize, by: Index) -> usize {
+        CountedIndex::get_previous(start, by)
+    }
+
+    pub fn wrap_at(wrap: Index) -> Index {
+        CountedIndex::new(wrap).wrap_at()
     }
 }
